@@ -14,6 +14,45 @@ ASSUMPTIONS = [
 ]
 
 
+def subclass_with_own_table(ctx, f, rng):
+    """an application's subclass of a response class that extends the class's field table (a second name for the bits of an
+    existing field, as a site-specific alias): the subclass's parser works with the subclass's table -- wherever the original
+    field is reported, the added one is, with the same value"""
+    cls = f.lib_cls()
+    table = getattr(cls, "_datain_bits", None)
+    if not isinstance(table, dict) or not table:
+        return
+    key = sorted(table)[0]
+    Sub = type("Site" + cls.__name__, (cls,), {"_datain_bits": dict(table, site_alias=table[key])})
+    v = f.gen(rng)
+    b = f.encode(v)
+    ctx.case((f.name, "subclass-table"), True)
+    ctx.count("subclass_table_decodes")
+    try:
+        kw = f.decode_kwargs(v)
+        base = cls.unmarshall_datain(bytearray(b), **kw)
+        sub = Sub.unmarshall_datain(bytearray(b), **kw)
+    except Exception as e:  # noqa: BLE001
+        ctx.fail("C06:%s.subclass_table_raises.%s" % (f.name, type(e).__name__), "decoding with a subclass that adds an alias for %r raised %s" % (key, e), {"format": f.name}, exc=e)
+        return
+
+    def values_of(x, name, out):
+        if isinstance(x, dict):
+            for k, y in x.items():
+                if k == name:
+                    out.append(repr(y))
+                values_of(y, name, out)
+        elif isinstance(x, (list, tuple)):
+            for y in x:
+                values_of(y, name, out)
+        return out
+
+    orig, alias = values_of(base, key, []), values_of(sub, "site_alias", [])
+    if orig and alias != orig:
+        ctx.fail("C06:%s.subclass_table_ignored_by_parser" % f.name, "a subclass whose field table has an alias for %r: the parser reports the alias %d times (%s...), the field itself %d times"
+                 % (key, len(alias), alias[:2], len(orig)), {"format": f.name})
+
+
 def lists_as_other_iterables(ctx, f, d, built, rng, wit):
     """the lists of a dictionary handed over as tuples or as one-shot iterables (generator, iter(), map()): a builder that accepts
     them builds the same bytes as from lists; one that needs a real list refuses -- it does not silently build something else"""
@@ -350,6 +389,8 @@ def run(shard, ctx):
     for d0 in minimal:
         ctx.case((f.name, "minimal", repr(sorted(d0))), False)
         built_bytes_are_private(ctx, f, d0, {"format": f.name, "dictionary": d0})
+    for _i in range(5):
+        subclass_with_own_table(ctx, f, rng)
     for mode in modes(f, shard):
         v = canonical(f, f.gen(rng, mode))
         b = f.encode(v)
@@ -385,6 +426,23 @@ def run(shard, ctx):
             resized_designator(ctx, f, v, b, rng, wit)
         if built is not None:
             lists_as_other_iterables(ctx, f, d, built, rng, wit)
+            # the same dictionary held in a mapping that makes up values for missing keys (a defaultdict, a Counter-like record): keys
+            # that are absent are absent
+            if rng.random() < 0.15:
+                import collections
+
+                try:
+                    dd = collections.defaultdict(int, copy.deepcopy(d))
+                    keys_before = set(dd)
+                    got_dd = bytes(f.lib_build(dd))
+                    ctx.count("builds_from_default_factory_dictionaries")
+                    if got_dd != bytes(built):
+                        ctx.fail("C06:%s.default_factory_dictionary_builds_other_bytes" % f.name, "%s: the same values held in a defaultdict build %d bytes that differ from the %d bytes built from a dict"
+                                 % (f.name, len(got_dd), len(built)), wit)
+                    elif set(dd) != keys_before:
+                        ctx.count("default_factory_dictionaries_gained_keys")
+                except Exception:  # noqa: BLE001
+                    ctx.count("default_factory_dictionaries_refused")
             built_bytes_are_private(ctx, f, d, wit)
             rejected_builds_in_between(ctx, f, d, rng, wit)
             try:
